@@ -41,3 +41,48 @@ def _kf_arc_tiny_chord(case, bucket, message, details, config):
         return False
     spec = case.get('spec')
     return bool(spec) and spec[0] == 'A' and 0 < _arc_lambda(spec) < 1e-12
+
+
+@matcher('cubic_bbox_tiny_extent_far_from_origin')
+def _kf_bbox_tiny(case, bucket, message, details, config):
+    """C08: bezier_real_minmax computes the critical points of a cubic from the control values themselves; when the
+    curve's extent is below ~1e-5 of its coordinate magnitude the discriminant cancels and an interior extreme is
+    misplaced (by up to the full extent at extent/|position| ~ 1e-8)."""
+    if not (bucket.startswith('C08/containment/C') or bucket.startswith('C08/tightness/C')):
+        return False
+    from . import gen
+    specs = [case['spec']] if case.get('what') == 'seg' else case.get('segs', [])
+    for spec in specs:
+        if spec[0] != 'C':
+            continue
+        pts = [gen.C(p) for p in spec[1:]]
+        for comp in (lambda z: z.real, lambda z: z.imag):
+            vals = [comp(z) for z in pts]
+            ext = max(vals) - min(vals)
+            pos = max(abs(v) for v in vals)
+            if 0 < ext < 1e-5 * pos:
+                return True
+    return False
+
+
+@matcher('cubic_near_cusp_scipy_quad')
+def _kf_cubic_near_cusp(case, bucket, message, details, config):
+    """C06: CubicBezier.length through scipy.integrate.quad on a cubic whose speed dips to between 1e-4 and 1e-2 of
+    its maximum (a narrow V-shaped kink of |B'(t)| that quad's error estimate does not see)."""
+    if config != 'scipy':
+        return False
+    if not any(bucket.startswith('C06/' + b) for b in ('outside_bracket/C', 'vs_quadrature/C', 'additivity/C')):
+        return False
+    if bucket.endswith('/singular'):
+        return False
+    specs = [case['spec']] if case.get('what') == 'seg' else case.get('segs', [])
+    from .props import c06
+    from . import gen
+    for spec in specs:
+        if spec[0] != 'C':
+            continue
+        cp = [gen.C(p) for p in spec[1:]]
+        vmin, tmin, vmax = c06.bez_speed_min(cp, 0.0, 1.0)
+        if vmax > 0 and 1e-4 * vmax < vmin < 1e-2 * vmax:
+            return True
+    return False
